@@ -71,8 +71,51 @@ def run(res, f, tier):
         if len(outs) == 1 and outs[0][1] == "self.expr":
             expr_idx = [fl["name"] for fl in rule_adt["variants"][0]["fields"]].index("expr")
     ob(expr_idx is not None, "C09|rule-expr", "Rule::expr() must return the rule's own expression field")
-    # ---- evaluate_value
+    # ---- what the rules of one evaluation share: apart from the ruleset and the input (shared references) only the
+    # function cache (transparent: C11).  Any other mutable state handed to every per-rule evaluation (a counter, a
+    # scratch buffer, a budget) lets one rule's run change another's outcome.
+    try:
+        ufb = f.bodies[A["uf_call"]]
+        cache_ty = [f.ty_s(ufb["locals"][i]["ty"])[5:] for i in range(2, ufb["arg_count"] + 1) if f.ty_s(ufb["locals"][i]["ty"]).startswith("&mut ")]
+    except Inconclusive:
+        cache_ty = []
+    strip_lt = lambda t_: re.sub(r"'\w+ ", "", t_)
+    cache_ty = [strip_lt(t_) for t_ in cache_ty]
+
+    def mutable_leaves(ty_id, depth=0):
+        t_ = f.ty(ty_id)
+        ts_ = strip_lt(t_["s"])
+        if ts_ in cache_ty:
+            return []
+        if t_["k"] == "ref":
+            return mutable_leaves(t_["inner"], depth + 1) if ts_.startswith("&mut ") else []
+        if t_["k"] == "adt" and depth < 6:
+            a_ = f.adts.get(t_["adt"])
+            if a_ and a_.get("local") and a_["kind"] == "struct":
+                out_ = []
+                for fl in a_["variants"][0]["fields"]:
+                    if fl.get("ty") is not None:
+                        out_ += mutable_leaves(fl["ty"], depth + 1)
+                return out_
+            if ts_.startswith("std::marker::PhantomData"):
+                return []
+        return [ts_]
+
+    # (only the functions evaluate_value itself calls per rule: a context built inside them lives for one rule)
     paths, it = evalsum.run_async_fn(f, ev_value, ["self", "facts"], opaque=lambda p: p in reaches_evaluator, loop_bound=UNROLL)
+    called_per_rule = set(short_callee(e[1]) for s_, _ in paths for e in s_.events if e[0] == "call" and short_callee(e[1]) in PER_RULE)
+    if cache_ty:
+        for d in sorted(d_ for d_ in reaches_evaluator if short_callee(d_) in called_per_rule):
+            b_ = f.bodies[d]
+            for i in range(1, b_["arg_count"] + 1):
+                ts_ = strip_lt(f.ty_s(b_["locals"][i]["ty"]))
+                if not ts_.startswith("&mut "):
+                    continue
+                extra = mutable_leaves(b_["locals"][i]["ty"])
+                ob(not extra, "C09|shared-state|%s" % short_callee(d),
+                   "%s hands mutable state other than the function cache (%s inside %s) to the evaluation of every rule: what one rule leaves there changes the next rule's outcome"
+                   % (short_callee(d), sorted(set(extra)), ts_), {"fn": d, "param": b_["locals"][i].get("name")})
+    # ---- evaluate_value
     got = []
     for s, rv in paths:
         got.append((dict(norm_cond(c) for c in s.conds), events_of(s), show(norm(it.resolve(s, rv))), set(s.flags)))
